@@ -347,7 +347,7 @@ func (g *gen) method(name string) Meth {
 		m.Payload = g.io(true)
 		if m.Payload.T == nil && g.r.Chance(1, 4) {
 			m.Security = vh.Pick(g.r, secKinds)
-			m.Payload.Fields = insertSec(m.Payload.Fields, m.Security, g.r.Intn(len(m.Payload.Fields)+1), g.r.Bool(), 900+g.r.Intn(50))
+			m.Payload.Fields = requireSec(insertSec(m.Payload.Fields, m.Security, g.r.Intn(len(m.Payload.Fields)+1), g.r.Bool(), 900+g.r.Intn(50)), g.r.Bool)
 			g.f("security-" + m.Security)
 		}
 		if ps := g.primFields(m.Payload); len(ps) > 0 && g.r.Chance(1, 3) {
@@ -389,6 +389,14 @@ func (g *gen) method(name string) Meth {
 		}
 	} else {
 		g.f("empty-result")
+	}
+	if g.r.Bool() { // the parts of a Method DSL may be declared in any order
+		m.Order = append([]string{}, canonicalOrder...)
+		for i := len(m.Order) - 1; i > 0; i-- {
+			j := g.r.Intn(i + 1)
+			m.Order[i], m.Order[j] = m.Order[j], m.Order[i]
+		}
+		g.f("shuffled-declaration-order")
 	}
 	return m
 }
@@ -482,6 +490,7 @@ func Covering() []*Design {
 		for pos := 0; pos <= 2; pos++ {
 			fs := []Fld{Rq(F(1, "aa", P("Int"))), F(2, "bb", P("String"))}
 			out = append(out, one("cover:security", Meth{Security: kind, Payload: &IO{Fields: insertSec(fs, kind, pos, (ki+pos)%2 == 0, 5)}, Result: obj}))
+			out = append(out, one("cover:security-required", Meth{Security: kind, Payload: &IO{Fields: requireSec(insertSec(fs, kind, pos, (ki+pos)%2 == 1, 5), func() bool { return true })}, Result: obj}))
 		}
 	}
 	out = append(out, one("cover:security-user-type", Meth{Security: "jwt", Payload: &IO{T: U("Cred")}, Result: obj},
@@ -504,6 +513,27 @@ func Covering() []*Design {
 	// required and optional attributes through metadata, headers, trailers
 	rq := &IO{Fields: []Fld{Rq(F(1, "ra", P("String"))), F(2, "ob", P("String")), Rq(F(3, "rc", P("Int"))), F(4, "od", P("Boolean")), Rq(F(5, "re", P("Float64"))), F(6, "keep", P("Int"))}}
 	out = append(out, one("cover:required-metadata", Meth{Payload: rq, Metadata: []string{"ra", "ob", "rc", "od"}, Result: rq, Headers: []string{"ra", "ob"}, Trailers: []string{"rc", "od", "re"}}))
+	// every declaration order of the parts of a Method DSL, for the four streaming kinds
+	// (object payloads with required attributes: with a streaming payload they all travel
+	// as request metadata)
+	rp := &IO{Fields: []Fld{Rq(F(1, "ra", P("String"))), F(2, "ob", P("Int")), Rq(F(3, "rc", P("Boolean")))}}
+	for _, k := range []struct {
+		m     Meth
+		parts []string
+	}{
+		{Meth{Payload: rp, Result: obj}, []string{"payload", "result", "grpc"}},
+		{Meth{Payload: rp, SPayload: obj, Result: obj}, []string{"payload", "streaming_payload", "result", "grpc"}},
+		{Meth{SPayload: obj, Result: obj}, []string{"streaming_payload", "result"}},
+		{Meth{Payload: rp, SResult: obj}, []string{"payload", "streaming_result", "grpc"}},
+		{Meth{Payload: rp, SPayload: obj, SResult: obj}, []string{"payload", "streaming_payload", "streaming_result", "grpc"}},
+		{Meth{SPayload: obj, SResult: obj}, []string{"streaming_payload", "streaming_result"}},
+	} {
+		for _, perm := range permutations(k.parts) {
+			m := k.m
+			m.Order = perm
+			out = append(out, one("cover:declaration-order", m))
+		}
+	}
 	// boundary tags and names
 	out = append(out, one("cover:boundary-tags", Meth{Payload: &IO{Fields: []Fld{F(536870911, "max", P("Int")), F(18999, "below", P("Int")),
 		F(20000, "above", P("Int")), F(1, "one", P("Int"))}}}))
@@ -586,6 +616,31 @@ func secAttrs(kind string, tagged bool, tag int) []Fld {
 		return []Fld{mk("token", "sec_tok", tag)}
 	}
 	return []Fld{mk("accesstoken", "sec_acc", tag)}
+}
+
+// requireSec marks the credential attributes required where pick says so.
+func requireSec(fs []Fld, pick func() bool) []Fld {
+	for i := range fs {
+		if fs[i].Sec != "" && pick() {
+			fs[i].Req = true
+		}
+	}
+	return fs
+}
+
+// permutations of the given parts
+func permutations(xs []string) [][]string {
+	if len(xs) <= 1 {
+		return [][]string{append([]string{}, xs...)}
+	}
+	var out [][]string
+	for i := range xs {
+		rest := append(append([]string{}, xs[:i]...), xs[i+1:]...)
+		for _, p := range permutations(rest) {
+			out = append(out, append([]string{xs[i]}, p...))
+		}
+	}
+	return out
 }
 
 // insertSec puts the credential attributes of the scheme at position pos.
